@@ -679,7 +679,9 @@ func (c *c15) yamlFraming() {
 	r.Floor("YAML genome sections", len(wsec), 4)
 	// reader: loops over doc[key].([]interface{})
 	rsec := map[string]section{}
-	for _, l := range Loops(rfn) {
+	skipsHandover := map[string]ssa.Instruction{}
+	rLoopsAll := Loops(rfn)
+	for _, l := range rLoopsAll {
 		for b := range l.Blocks {
 			for _, in := range b.Instrs {
 				cl, ok := in.(*ssa.Call)
@@ -703,14 +705,46 @@ func (c *c15) yamlFraming() {
 				f := ""
 				if res != nil {
 					var blocks []*ssa.BasicBlock
-					for bb := range l.Blocks {
-						blocks = append(blocks, bb)
+					for _, bb := range rfn.Blocks {
+						if l.Blocks[bb] {
+							blocks = append(blocks, bb)
+						}
 					}
-					f = appendedField(rtm, blocks, res)
+					var at ssa.Instruction
+					f, at = appendedFieldAt(rtm, blocks, res)
+					// every iteration that goes on hands its record over (a `continue` between the reader and the
+					// hand-over drops records without an error)
+					if at != nil {
+						if il := InnermostLoop(rLoopsAll, at.Block()); il != nil {
+							for _, lt := range il.Latch {
+								if !(at.Block() == lt || at.Block().Dominates(lt)) {
+									skipsHandover[key] = at
+								}
+							}
+						}
+					}
 				}
 				rsec[key] = section{key: key, fn: cal.Name(), field: f, pos: cl.Pos()}
 			}
 		}
+	}
+	// sections whose records are restored in place (no helper): the loop counts as the reader of its record kind only
+	// when it is the very region the record rule (C15.2) reads for that kind
+	inPlaceLoop := map[string]*Loop{}
+	for _, g := range c.yamlRegions(rfn) {
+		if _, taken := rsec[g.key]; taken {
+			continue
+		}
+		kind := "(records built in place)"
+		for _, name := range sortedKeys(c15YamlRecordType) {
+			if c.p.FuncOpt(PkgG, name) == nil {
+				if rd := c.yamlReader(name); rd.region == g {
+					kind = name
+				}
+			}
+		}
+		rsec[g.key] = section{key: g.key, fn: kind, field: g.field, pos: g.handover.Pos()}
+		inPlaceLoop[g.key] = g.loop
 	}
 	keys := sortedKeys(wsec)
 	// a list that is there is written, and a section that is there is read: with the tests "is the list / the key there"
@@ -731,6 +765,9 @@ func (c *c15) yamlFraming() {
 				}
 			}
 		}
+	}
+	for k, l := range inPlaceLoop {
+		rLoopOf[k] = l
 	}
 	for _, k := range keys {
 		w := wsec[k]
@@ -785,6 +822,16 @@ func (c *c15) yamlFraming() {
 		}
 		r.Check(yamlPairs[w.fn] == rs.fn && rs.field == w.field, cons, p.Pos(rs.pos), fmt.Sprintf("%q: %s(%s) <-> %s -> %s", k, w.fn, w.field, rs.fn, rs.field),
 			fmt.Sprintf("key %q: written by %s from %s, read by %s into %q; expected %s appending to %s", k, w.fn, w.field, rs.fn, rs.field, yamlPairs[w.fn], w.field))
+		at, skips := skipsHandover[k]
+		if !skips {
+			at = nil
+		}
+		posAt := p.Pos(rs.pos)
+		if at != nil {
+			posAt = p.Pos(at.Pos())
+		}
+		r.Check(!skips, label+".section-kept:"+k, posAt, fmt.Sprintf("every iteration over %q that goes on hands its record to %s", k, rs.field),
+			fmt.Sprintf("an iteration over %q can go on to the next element without handing the record it read to %s: the record is dropped and no error is reported", k, rs.field))
 	}
 	// ids are resolved against the lists restored so far: the trait / node list a record reader receives is the list
 	// the earlier section was restored into, and that list is complete when it is read (nothing is added to it later)
@@ -854,6 +901,51 @@ func (c *c15) yamlLookupLists(rfn *ssa.Function, rtm *Termer, label string) {
 		return out
 	}
 	n := 0
+	// checkList: the list `a` that the record reader `who` (at instruction `at`) resolves ids against is the list the
+	// records of this document are restored into, and it is complete when it is read
+	checkList := func(who string, at ssa.Instruction, a ssa.Value) {
+		sl, ok := a.Type().Underlying().(*types.Slice)
+		if !ok {
+			return
+		}
+		named, _ := deref(sl.Elem()).(*types.Named)
+		if named == nil {
+			return
+		}
+		field := map[string]string{"Trait": "Traits", "NNode": "Nodes"}[named.Obj().Name()]
+		if field == "" {
+			return
+		}
+		n++
+		cons := label + ".lookup:" + who + "." + field
+		var events []ssa.Instruction
+		var from ssa.Instruction = at
+		lt := rtm.Of(a)
+		switch {
+		case lt.Op == "field" && lt.Name == field:
+			events = eventsOf(field)
+			if ld, ok := a.(ssa.Instruction); ok {
+				from = ld // the list is what the field holds when it is loaded
+			}
+		default:
+			for _, lc := range cols {
+				if lc.field == field && lc.vals[a] {
+					events = []ssa.Instruction{lc.app}
+				}
+			}
+		}
+		if len(events) == 0 {
+			r.Bad(cons, p.Pos(at.Pos()), fmt.Sprintf("%s resolves %s ids against %s, which is not the list the %s of this document are restored into", who, strings.ToLower(field), lt, strings.ToLower(field)))
+			return
+		}
+		isEv := map[ssa.Instruction]bool{}
+		for _, e := range events {
+			isEv[e] = true
+		}
+		path := FindPath(p, PathQuery{Fn: rfn, StartAfter: from, FlagBlind: true, Target: func(in ssa.Instruction) bool { return isEv[in] }})
+		r.Check(path == nil, cons, p.Pos(at.Pos()), fmt.Sprintf("%s resolves ids against the completely restored %s", who, field),
+			fmt.Sprintf("%s resolves ids against the %s list as it is before all %s of the document have been put into it: the looked-up %s are not found and the records are restored without them", who, field, strings.ToLower(field), strings.ToLower(field)), path...)
+	}
 	Instrs(rfn, func(_ *ssa.BasicBlock, _ int, in ssa.Instruction) {
 		cl, ok := in.(*ssa.Call)
 		if !ok {
@@ -864,49 +956,30 @@ func (c *c15) yamlLookupLists(rfn *ssa.Function, rtm *Termer, label string) {
 			return
 		}
 		for _, a := range cl.Call.Args[1:] {
-			sl, ok := a.Type().Underlying().(*types.Slice)
-			if !ok {
-				continue
-			}
-			named, _ := deref(sl.Elem()).(*types.Named)
-			if named == nil {
-				continue
-			}
-			field := map[string]string{"Trait": "Traits", "NNode": "Nodes"}[named.Obj().Name()]
-			if field == "" {
-				continue
-			}
-			n++
-			cons := label + ".lookup:" + cal.Name() + "." + field
-			var events []ssa.Instruction
-			var from ssa.Instruction = cl
-			at := rtm.Of(a)
-			switch {
-			case at.Op == "field" && at.Name == field:
-				events = eventsOf(field)
-				if ld, ok := a.(ssa.Instruction); ok {
-					from = ld // the list is what the field holds when it is loaded
-				}
-			default:
-				for _, lc := range cols {
-					if lc.field == field && lc.vals[a] {
-						events = []ssa.Instruction{lc.app}
-					}
-				}
-			}
-			if len(events) == 0 {
-				r.Bad(cons, p.Pos(cl.Pos()), fmt.Sprintf("%s resolves %s ids against %s, which is not the list the %s of this document are restored into", cal.Name(), strings.ToLower(field), at, strings.ToLower(field)))
-				continue
-			}
-			isEv := map[ssa.Instruction]bool{}
-			for _, e := range events {
-				isEv[e] = true
-			}
-			path := FindPath(p, PathQuery{Fn: rfn, StartAfter: from, FlagBlind: true, Target: func(in ssa.Instruction) bool { return isEv[in] }})
-			r.Check(path == nil, cons, p.Pos(cl.Pos()), fmt.Sprintf("%s resolves ids against the completely restored %s", cal.Name(), field),
-				fmt.Sprintf("%s resolves ids against the %s list as it is before all %s of the document have been put into it: the looked-up %s are not found and the records are restored without them", cal.Name(), field, strings.ToLower(field), strings.ToLower(field)), path...)
+			checkList(cal.Name(), cl, a)
 		}
 	})
+	// records restored in place: the lists their by-id fields are looked up in (the list argument of the selector call
+	// that fills the field, or the list a written-out search runs over)
+	for _, name := range sortedKeys(yamlReaders) {
+		if p.FuncOpt(PkgG, name) != nil {
+			continue
+		}
+		rd := c.yamlReader(name)
+		if rd.region == nil || rd.fn != rfn {
+			continue // reported by the record rule
+		}
+		tab := map[string]*wireTable{"readNNode": &yamlNodeTable, "readGene": &geneTable, "readMIMOControlGene": &mimoTable}[name]
+		robj := &readerObject{fields: map[string][]*Term{}, elems: map[string][]*Term{}}
+		c.flatten(rfn, rd.region.sm, "", tab, robj, 0)
+		for _, a := range c15RecordLookupLists(tab, robj) {
+			var at ssa.Instruction = rd.region.handover
+			if in, ok := a.(ssa.Instruction); ok {
+				at = in
+			}
+			checkList(name, at, a)
+		}
+	}
 	r.Floor("id lists handed to the YAML record readers", n, 5)
 }
 
